@@ -836,6 +836,23 @@ def _decl_then_assign(stmts):
                 v2["init"] = a["r"]
                 stmts = stmts[:i] + [dict(s, vars=[v2])] + stmts[i + 2:]
                 continue
+        # S16 (declaration and first assignment apart): `T x; ... x = e;` with no use of x in between -> the declaration moves down
+        if isinstance(s, dict) and s.get("k") == "Decl" and len(s.get("vars", [])) == 1 and "d" in s["vars"][0] and s["vars"][0].get("init") is None \
+                and not s["vars"][0].get("ref") and "[" not in (s["vars"][0].get("t") or ""):
+            v = s["vars"][0]
+            j = None
+            for q in range(i + 1, len(stmts)):
+                if _refs_to(stmts[q], v["d"]):
+                    j = q
+                    break
+            if j is not None and isinstance(stmts[j], dict) and stmts[j].get("k") == "Expr":
+                a = _strip(stmts[j].get("e"))
+                if isinstance(a, dict) and a.get("k") == "Assign" and a.get("op") == "=" and isinstance(_strip(a.get("l")), dict) and _strip(a["l"]).get("k") == "Ref" \
+                        and _strip(a["l"]).get("d") == v["d"] and not _refs_to(a["r"], v["d"]):
+                    v2 = dict(v)
+                    v2["init"] = a["r"]
+                    stmts = stmts[:i] + stmts[i + 1:j] + [dict(s, vars=[v2], loc=stmts[j].get("loc") or s.get("loc"))] + stmts[j + 1:]
+                    continue
         # S17: `T x = a; x |= b;` -> `T x = a | b;`   (integer x built up in consecutive statements; b pure and not reading x): a flags
         # byte assembled step by step is the one expression
         if isinstance(s, dict) and s.get("k") == "Decl" and len(s.get("vars", [])) == 1 and "d" in s["vars"][0] and s["vars"][0].get("init") is not None \
